@@ -314,6 +314,7 @@ def apply_contract(interp, fi, c, args, kwargs, fr, node):
     if isinstance(selfobj, Obj):
         oldenv['self'] = snapshot_obj(selfobj)
     interp._old_frames.append(Frame(fi, oldenv, spec=True))
+    interp.ghost_frames.append({g: interp.fresh_typed('ghost.' + g, ty) for g, ty in c.get('ghost_locals', {}).items()})
     try:
         for i, r in enumerate(c.get('requires', [])):
             if is_ctor and r.startswith('INV'):
@@ -362,6 +363,8 @@ def apply_contract(interp, fi, c, args, kwargs, fr, node):
         have_result = False
         pending = []
         ens = c.get('ensures', [])
+        if is_ctor and c.get('ctor_build') and isinstance(selfobj, Obj):
+            c['ctor_build'](interp, cfr.env, selfobj)
         if is_ctor and c.get('ctor_fields') and isinstance(selfobj, Obj):
             # constructor: the new object's fields are given constructively (the ensures clauses are
             # what the constructor's own verification proves about exactly these values)
@@ -403,6 +406,7 @@ def apply_contract(interp, fi, c, args, kwargs, fr, node):
         return result
     finally:
         interp._old_frames.pop()
+        interp.ghost_frames.pop()
 
 
 def _mentions(node, objname, attr):
